@@ -19,6 +19,8 @@ hmod!(pub(crate) fault, "fault.rs");
 #[cfg(not(feature = "shuttle"))]
 hmod!(pub(crate) c01, "c01.rs");
 #[cfg(not(feature = "shuttle"))]
+hmod!(pub(crate) c02, "c02.rs");
+#[cfg(not(feature = "shuttle"))]
 hmod!(pub(crate) c03, "c03.rs");
 #[cfg(not(feature = "shuttle"))]
 hmod!(pub(crate) c04, "c04.rs");
